@@ -153,7 +153,18 @@ class Run:
             raise InfraError('lake build failed without a Lean error:\n' + out[-2000:])
         return rc == 0, out
 
-    def build_and_audit(self, props_module, extra_targets=None, model_files=()):
+    def build_and_audit(self, props_module, extra_targets=None, model_files=(), more_props=()):
+        """`more_props`: further Props modules whose theorems belong to this property (each is built and
+        audited the same way; a failure in one does not hide the others)."""
+        ok = self._build_and_audit_one(props_module, extra_targets, model_files)
+        for m in more_props:
+            if os.path.exists(os.path.join(LEAN, m.replace('.', '/') + '.lean')):
+                ok = self._build_and_audit_one(m, [], (), tag=m.split('.')[-1]) and ok
+            else:
+                self.notes.append('props module %s not present' % m)
+        return ok
+
+    def _build_and_audit_one(self, props_module, extra_targets=None, model_files=(), tag=None):
         """Build Props module + driver, audit axioms of every property theorem in it, grep for
         forbidden constructs in the files that matter.  Each theorem is one obligation."""
         relpath = props_module.replace('.', '/') + '.lean'
@@ -170,17 +181,19 @@ class Run:
             self.notes.append('lake build %s failed' % props_module)
         # the driver is built separately: a broken proof must not take the correspondence down with it
         if extra_targets is None:
-            extra_targets = ['drv_' + self.prop.lower()]
-        dok, dlog = self.lean_build(list(extra_targets)) if extra_targets else (True, '')
-        self.driver_ok = dok and os.path.exists(driver_path(self.prop))
-        if not self.driver_ok:
-            self.oblige('build:drv_' + self.prop.lower(), 'build', False, '\n'.join([l for l in dlog.split('\n') if 'error' in l][:12]))
+            has_drv = os.path.exists(os.path.join(LEAN, 'Driver', self.prop + '.lean'))
+            extra_targets = ['drv_' + self.prop.lower()] if has_drv else []
+        if extra_targets:
+            dok, dlog = self.lean_build(list(extra_targets))
+            self.driver_ok = dok and os.path.exists(driver_path(self.prop))
+            if not self.driver_ok:
+                self.oblige('build:drv_' + self.prop.lower(), 'build', False, '\n'.join([l for l in dlog.split('\n') if 'error' in l][:12]))
         if not ok:
             return False
         # audit
         audit_dir = os.path.join(LEAN, '.lake', 'audit')
         os.makedirs(audit_dir, exist_ok=True)
-        path = os.path.join(audit_dir, 'Audit_%s.lean' % self.prop)
+        path = os.path.join(audit_dir, 'Audit_%s.lean' % (tag or self.prop))
         with open(path, 'w') as f:
             f.write('import %s\n' % props_module)
             for n in names:
@@ -192,7 +205,7 @@ class Run:
             axioms[m.group(1)] = [a.strip() for a in m.group(2).replace('\n', ' ').split(',') if a.strip()]
         for m in re.finditer(r"'([^']+)' does not depend on any axioms", out):
             axioms[m.group(1)] = []
-        self.axioms = axioms
+        self.axioms.update(axioms)
         all_ok = True
         for n in names:
             if n not in axioms:
@@ -214,7 +227,7 @@ class Run:
             for i, line in enumerate(body.split('\n'), 1):
                 if FORBIDDEN.search(line):
                     hits.append('%s:%d: %s' % (rp, i, line.strip()[:120]))
-        self.oblige('grep:no-sorry-axiom-native_decide', 'audit', not hits, '\n'.join(hits))
+        self.oblige('grep:no-sorry-axiom-native_decide:' + props_module.split('.')[-1], 'audit', not hits, '\n'.join(hits))
         if self.tier == 'thorough':
             with LakeLock():
                 rc, out = sh(['lake', 'env', 'leanchecker', props_module], cwd=LEAN, timeout=3000)
